@@ -6,6 +6,7 @@ import Driver.NotifierD
 import Driver.ClusterD
 import Driver.TmplD
 import Driver.ConfigD
+import Driver.ZkLoopD
 
 /-!
   Line-protocol driver.  One operation per input line, one canonical output line per operation.
@@ -26,6 +27,7 @@ def step (st : State) (line : String) : State × String :=
   | "D" :: args => (st, DecodeD.step args)
   | "T" :: args => (st, TmplD.step args)
   | "C" :: args => (st, ConfigD.step args)
+  | "Z" :: args => (st, ZkLoopD.step args)
   | "K" :: args =>
     let (s', out) := ClusterD.step st.cluster args
     ({ st with cluster := s' }, out)
